@@ -7,6 +7,7 @@ import (
 	"strings"
 
 	"go.lstv.dev/util/roman"
+	"verif/libdefaults"
 	"verif/mc"
 	"verif/oracle"
 )
@@ -19,7 +20,7 @@ type arg struct {
 	In   mc.Bin `json:"in"`
 	Rule int    `json:"rule"`
 	Max  *int   `json:"max_input_length,omitempty"` // nil = default 128
-	Prev *prev  `json:"previous_call,omitempty"` // history of depth 2: this call is made first, on the buffer that is then reused for In
+	Prev *prev  `json:"previous_call,omitempty"`    // history of depth 2: this call is made first, on the buffer that is then reused for In
 }
 
 type prev struct {
@@ -50,10 +51,7 @@ func bufferFor(a arg) []byte {
 }
 
 func reset() {
-	roman.DefaultFormat = 0
-	roman.MaxInputLength = 128
-	roman.Formatter = roman.DefaultFormatter
-	roman.Parser = roman.DefaultParser[[]byte]
+	libdefaults.Roman()
 }
 
 // typedFor: the error is typed by the kind of input that was passed
@@ -68,7 +66,7 @@ func typedFor(err error, bytesInput bool) bool {
 
 // expect: accept?, value
 func setup(a arg) {
-	roman.MaxInputLength = 128
+	roman.MaxInputLength = libdefaults.RomanMaxInputLength // default configuration: whatever the library starts with (the oracle assumes the documented 128)
 	if a.Max != nil {
 		roman.MaxInputLength = *a.Max
 	}
